@@ -146,6 +146,8 @@ func runC09(r *vhlib.Run) {
 	// lifecycle histories of flate.Reader (Read / Close / Reset in any order over scripted sources)
 	// against the implementation-level model, per call (Flate/ImplLife.v)
 	wfllife(r)
+	// meta.Reader itself against its implementation-level model, per call (Meta/ReaderImpl.v)
+	runWMETAR(r)
 	nValid, maxPlain := 14, 1500
 	if !r.Quick() {
 		nValid, maxPlain = 60, 30000
